@@ -13,3 +13,5 @@ import SJ.Props.C07
 #print axioms SJ.Props.C07.c07_other_literals
 #print axioms SJ.Props.C07.c07_all_sources
 #print axioms SJ.Props.C07.c07_roundtrip
+#print axioms SJ.Props.C07.c07_typed_f32_link
+#print axioms SJ.Props.C07.c07_typed_nearest
